@@ -12,7 +12,7 @@ for line in open(f"/tmp/mut/{tag}.summary"):
     ok = ("FAILED" in c.get("mut_demo", "")) and ("ok." in c.get("clean_demo", "")) and "98 passed; 1 failed" in c.get("suite_with_patch", "")
     if not ok:
         print("NOT CONFIRMED", name, conf[:300]); continue
-    if "PATCH-DOES-NOT-APPLY" in chk:
+    if "PATCH-DOES-NOT-APPLY" in chk or "mutcheck rc=3" in chk:
         print("STALE", name); continue
     det = "yes" if "VIOLATION" in chk else "no"
     vio = re.findall(r"VIOLATION property=\S+ replay=\S+(?: no-failing-input-found)?", chk)
